@@ -98,6 +98,12 @@ class Registry:
         self.exc_parents: dict[str, str] = {}     # exception kind -> parent kind
         self.transparent_cms: set = set()         # context managers treated as transparent
         self.class_of_sort: dict[str, str] = {}
+        self.aliases: dict[tuple, str] = {}       # (sort or class name, method) -> contract key
+        self.globals: dict[str, str] = {}         # module-level mutable globals: name -> type
+        self.named_tuples: dict[str, list] = {}   # str(tuple type) -> field names
+        self.isinstance_tests: dict[tuple, str] = {}   # (sort, class name) -> spec expression over x
+        self.identity_sorts: tuple = ('Inst',)
+        self.file_sorts: tuple = ()
 
     # -- declaration helpers (used by sidecar files) -----------------------
     def enum(self, name, members):
@@ -135,6 +141,9 @@ class Registry:
 
     def lemma(self, name, *, vars, hyps, goal, serves=(), note=''):
         self.lemmas[name] = dict(vars=vars, hyps=_clauses(hyps), goal=C(goal), serves=tuple(serves), note=note)
+
+    def alias(self, owner, meth, key):
+        self.aliases[(owner, meth)] = key
 
     def exception(self, kind, parent):
         self.exc_parents[kind] = parent
